@@ -1,4 +1,4 @@
 SPECIFICATION Spec
-CONSTANTS S1 = 3 S2 = 3 S3 = 0  MaxV = 1  Start = "Mask"  Strict = FALSE  Cross = TRUE  Close = FALSE  LabelBoundary = FALSE
+CONSTANTS S1 = 3 S2 = 3 S3 = 0  MaxV = 1  Start = "Mask"  Strict = FALSE  Cross = TRUE  Close = FALSE  LabelBoundary = FALSE  RankByArray = FALSE  Coarse = 1
 CHECK_DEADLOCK FALSE
 INVARIANT CoordsAreBoundary
